@@ -18,6 +18,10 @@ CHECKS = {
          "Exploration: documents of both grammars rendered with hostile trivia (multi-line block strings, CR/CRLF/LF CR, BOMs, comments, multi-byte) before every node kind, their single-token mutations (error locations), multi-file schema loads and validation errors; offset range, token-start, line, column, file and anchor text checked for every position the library reports.",
          "Trusts the line index (15 lines) and the reference lexer; lexical errors are only checked for bounds. One recorded known finding (quoted-string column, pinned by the suite).",
          "DESIGN.md §4 C04"),
+ "C05": ("reference-model monitor: Earley recognizer running the Appendix-B executable grammar as data vs ParseQuery on bounded-exhaustive token sequences, rendered trees and token mutations; model-tree round trip under two trivia placements",
+         "Exploration with an exhaustive core: every token sequence up to length 5 (quick) / 6 (thorough) over 18 token classes and every one-token extension of every viable prefix up to length 7 / 8 (4.3M sequences quick), 38k (quick) / 1.5M (thorough) single-token mutants of rendered documents, and 12k / 500k unmutated renderings whose parsed tree must equal the generated tree under hostile and single-space trivia.",
+         "Trusts the grammar transcription (Oct 2021 Appendix B + fragment variable definitions) and the reference lexer; abstains on inputs the reference lexer abstains on. Two defects repaired (a09777e, de69567); one recorded finding (empty document accepted).",
+         "DESIGN.md §4 C05"),
  "C12": ("round-trip monitor: model(parse(x)) = model(parse(format_c(parse(x)))) and text fixpoint, over generated trees with hostile strings x 20 formatter configurations",
          "Exploration: 5k (quick) / 100k (thorough) documents rendered from random syntax trees with hostile string values, directives in every position (incl. variable definitions), fragment variables and comments are parsed, formatted under every combination of comments x compacted x 5 indents (builtin / no-description flags rotated), re-parsed and compared through an independent AST->model adapter; the second format must reproduce the first byte for byte.",
          "Trusts the model adapter and diff; comments and positions are not compared; relative order of operations vs fragments not compared (formatter emits operations first by design). Two defects found by this check were repaired (fix: commits fc85355, 36779a6).",
